@@ -1,12 +1,240 @@
 /-
-  Property C12 — property theorems only (helper lemmas live next to the model).
+  Property C12 — reusable containers: match std behaviour; clearing keeps capacity for reuse.
+  Property theorems only; helper lemmas live in Babylon/RVec/Lemmas*.lean.
+
+  Model: Babylon/RVec/Model.lean (cell-level transcription of vector.hpp, allocation metadata,
+  ReusableManager) and Babylon/RVec/Str.lean (reusable string).  All theorems quantify over the
+  element-type behaviour `c : Cfg` (what moved-from elements hold, which `call_reconstruct`
+  overload applies), over every operation sequence and over every value.
 -/
-import Babylon.RVec.Model
+import Babylon.RVec.Lemmas4
 import Babylon.RVec.Str
 
 namespace Babylon.Properties.C12
-open Babylon.RVec Babylon.Gen.RVec
+open Babylon.RVec Babylon.RVec.RVec Babylon.Gen.RVec Babylon.Core
 
+/-! ### generated obligations (tie to the current source, see gen/rvec.py) -/
+
+/-- growth policy of `emplace_back` and the manager's default cadence -/
 theorem gen_growth_policy : growInit = 4 ∧ growFactor = 2 ∧ defaultRecreateInterval = 1000 := by decide
+
+/-- `prepare_for_insert` returns before its shifting loops when nothing is inserted (without the
+guard its second loop self-move-assigns every element behind `pos`; fixed in /repo 4ee8558,
+replay corpus/C12/zero_count_insert_stdstring.txt) -/
+theorem gen_zero_count_guard : zeroCountGuard = true := by decide
+
+/-- libstdc++ string facts the string model uses, as measured by the translator's probe -/
+theorem gen_string_probe : ssoCap = 15 ∧ growProbe = 2 * ssoCap ∧ exactProbe = 1000 ∧ cxx11abi = 1 := by decide
+
+/-! The normalised text of every member function the model transcribes.  An edit of one of these
+functions makes the corresponding obligation fail until the model has been re-read against it. -/
+theorem gen_src_move_ctor : src_move_ctor =
+    "noexcept:ReusableVector(other.get_allocator()){swap(other);}" := rfl
+theorem gen_src_copy_assign : src_copy_assign =
+    "{assign(other.begin(),other.end());return*this;}" := rfl
+theorem gen_src_move_assign : src_move_assign =
+    "{if(_allocator==other.get_allocator()){swap(other);}else{clear();reserve(other.size());for(auto&value:other){emplace_back(::std::move(value));}}return*this;}" := rfl
+theorem gen_src_dtor : src_dtor =
+    "{ifCONSTEXPR_SINCE_CXX17(!::std::is_trivially_destructible<value_type>::value){for(size_ti=0;i<_constructed_size;++i){_data[i].~value_type();}}}" := rfl
+theorem gen_src_move_ctor_alloc : src_move_ctor_alloc =
+    "noexcept:ReusableVector(allocator){*this=::std::move(other);}" := rfl
+theorem gen_src_ctor_count : src_ctor_count =
+    "noexcept:_allocator(allocator),_data(_allocator.allocate(count)),_size(count),_constructed_size(count),_capacity(count){for(size_ti=0;i<_size;++i){_allocator.construct(&_data[i]);}}" := rfl
+theorem gen_src_ctor_count_value : src_ctor_count_value =
+    "noexcept:_allocator(allocator),_data(_allocator.allocate(count)),_size(count),_constructed_size(count),_capacity(count){for(size_ti=0;i<_size;++i){_allocator.construct(&_data[i],value);}}" := rfl
+theorem gen_src_ctor_range : src_ctor_range =
+    "noexcept:_allocator{allocator},_size(::std::distance(first,last)),_constructed_size{_size},_capacity{_size}{_data=_allocator.allocate(_size);for(size_ti=0;i<_size;++i){_allocator.construct(&_data[i],*first++);}}" := rfl
+theorem gen_src_assign_count_value : src_assign_count_value =
+    "{clear();reserve(count);for(size_typei=0;i<count;++i){emplace_back(value);}}" := rfl
+theorem gen_src_assign_range : src_assign_range =
+    "{usingV=decltype(*first);clear();reserve(::std::distance(first,last));::std::for_each(first,last,[this](Vvalue){emplace_back(value);});}" := rfl
+theorem gen_src_reserve : src_reserve =
+    "{if(_capacity>=min_capacity){return;}autonew_data=_allocator.allocate(min_capacity);for(size_typei=0;i<_constructed_size;++i){_allocator.construct(&new_data[i],::std::move(_data[i]));_allocator.destroy(&_data[i]);}_data=new_data;_capacity=min_capacity;}" := rfl
+theorem gen_src_clear : src_clear =
+    "{_size=0;}" := rfl
+theorem gen_src_insert_count_value : src_insert_count_value =
+    "{size_typeindex=&*pos-_data;autoreconstruct_end_size=prepare_for_insert(index,count);for(size_typei=index;i<reconstruct_end_size;++i){ValueReusableTraits::reconstruct(_data[i],_allocator,value);}for(size_typei=reconstruct_end_size;i<index+count;++i){_allocator.construct(&_data[i],value);++_constructed_size;}returniterator(&_data[index]);}" := rfl
+theorem gen_src_insert_range : src_insert_range =
+    "{size_typeindex=&*pos-_data;autocount=::std::distance(first,last);autoreconstruct_end_size=prepare_for_insert(index,count);for(size_typei=index;i<reconstruct_end_size;++i){ValueReusableTraits::reconstruct(_data[i],_allocator,*first++);}for(size_typei=reconstruct_end_size;i<index+count;++i){_allocator.construct(&_data[i],*first++);++_constructed_size;}returniterator(&_data[index]);}" := rfl
+theorem gen_src_emplace : src_emplace =
+    "{size_typeindex=&*pos-_data;autoreconstruct_end_size=prepare_for_insert(index,1);if(index<reconstruct_end_size){ValueReusableTraits::reconstruct(_data[index],_allocator,::std::forward<Args>(args)...);}else{_allocator.construct(&_data[index],::std::forward<Args>(args)...);++_constructed_size;}returniterator(&_data[index]);}" := rfl
+theorem gen_src_erase : src_erase =
+    "{if(first==last){returniterator(const_cast<pointer>(&*first));}iteratordest(const_cast<pointer>(&*first));iteratorsrc(const_cast<pointer>(&*last));while(src!=end()){*dest++=::std::move(*src++);}_size-=last-first;returniterator(const_cast<pointer>(&*first));}" := rfl
+theorem gen_src_emplace_back : src_emplace_back =
+    "{if(_size==_capacity){reserve(_capacity==0?4:_capacity*2);}if(_constructed_size>_size){ValueReusableTraits::reconstruct(_data[_size++],_allocator,::std::forward<Args>(args)...);}else{_allocator.construct(&_data[_size++],::std::forward<Args>(args)...);++_constructed_size;}}" := rfl
+theorem gen_src_pop_back : src_pop_back =
+    "{assert(_size>0&&\"popemptyvector\");--_size;}" := rfl
+theorem gen_src_resize : src_resize =
+    "{reserve(count);if(_size<count){autoreconstruct_end_size=::std::min(_constructed_size,count);for(autoi=_size;i<reconstruct_end_size;++i){ValueReusableTraits::reconstruct(_data[i],_allocator);}for(autoi=reconstruct_end_size;i<count;++i){_allocator.construct(&_data[i]);++_constructed_size;}}_size=count;}" := rfl
+theorem gen_src_resize_value : src_resize_value =
+    "{reserve(count);if(_size<count){autoreconstruct_end_size=::std::min(_constructed_size,count);for(autoi=_size;i<reconstruct_end_size;++i){ValueReusableTraits::reconstruct(_data[i],_allocator,value);}for(autoi=reconstruct_end_size;i<count;++i){_allocator.construct(&_data[i],value);++_constructed_size;}}_size=count;}" := rfl
+theorem gen_src_swap : src_swap =
+    "{assert(_allocator==other._allocator&&\"cannotswapvectorwithdifferentallocator\");::std::swap(_data,other._data);::std::swap(_capacity,other._capacity);::std::swap(_size,other._size);::std::swap(_constructed_size,other._constructed_size);}" := rfl
+theorem gen_src_ctor_meta : src_ctor_meta =
+    "noexcept:_allocator(allocator),_data(_allocator.allocate(metadata.capacity)),_size(0),_constructed_size(metadata.capacity),_capacity(metadata.capacity){for(size_typei=0;i<_constructed_size;++i){ValueReusableTraits::construct_with_allocation_metadata(&_data[i],_allocator,metadata.value_metadata);}}" := rfl
+theorem gen_src_update_meta : src_update_meta =
+    "{metadata.capacity=::std::max(_constructed_size,metadata.capacity);for(size_typei=0;i<_constructed_size;++i){ValueReusableTraits::update_allocation_metadata(_data[i],metadata.value_metadata);}}" := rfl
+theorem gen_src_assign_count : src_assign_count =
+    "{clear();resize(count);}" := rfl
+theorem gen_src_prepare_for_insert : src_prepare_for_insert =
+    "{if(count==0){return::std::min(index,_constructed_size);}reserve(_size+count);automove_end_size=::std::max(index+count,_constructed_size);autoreconstruct_end_size=::std::min(index+count,_constructed_size);for(size_typei=_size+count;i>move_end_size;){--i;_allocator.construct(&_data[i],::std::move(_data[i-count]));++_constructed_size;}for(size_typei=move_end_size;i>index+count;){--i;_data[i]=::std::move(_data[i-count]);}_size+=count;returnreconstruct_end_size;}" := rfl
+theorem gen_src_call_reconstruct_0 : src_call_reconstruct_0 =
+    "{value.clear();}" := rfl
+theorem gen_src_call_reconstruct_1 : src_call_reconstruct_1 =
+    "{value.Clear();}" := rfl
+theorem gen_src_call_reconstruct_2 : src_call_reconstruct_2 =
+    "{value=::std::forward<U>(other);}" := rfl
+theorem gen_src_call_reconstruct_3 : src_call_reconstruct_3 =
+    "{value.assign(::std::forward<Args>(args)...);}" := rfl
+theorem gen_src_call_reconstruct_4 : src_call_reconstruct_4 =
+    "{allocator.destroy(&value);allocator.construct(&value,::std::forward<Args>(args)...);}" := rfl
+theorem gen_src_manager_clear : src_manager_clear =
+    "{if(++_clear_times>=_recreate_interval){_clear_times=0;for(auto&unit:_units){unit->update();}_resource.release();for(auto&unit:_units){unit->recreate(_resource);}}else{for(auto&unit:_units){unit->clear(_resource);}}}" := rfl
+theorem gen_src_unit_clear : src_unit_clear =
+    "{Reuse::reconstruct(*_instance,MonotonicAllocator<T,R>{resource});}" := rfl
+theorem gen_src_unit_update : src_unit_update =
+    "{Reuse::update_allocation_metadata(*_instance,_meta);}" := rfl
+theorem gen_src_unit_recreate : src_unit_recreate =
+    "{_instance=Reuse::create_with_allocation_metadata<T>(MonotonicAllocator<T,R>{resource},_meta);}" := rfl
+theorem gen_src_accessor_get : src_accessor_get =
+    "{return*_instance;}" := rfl
+theorem gen_src_create_with_meta : src_create_with_meta =
+    "{autoinstance=allocator.templateallocate_object<TT>();ReusableTraits<TT>::construct_with_allocation_metadata(instance,allocator,meta);allocator.register_destructor(instance);returninstance;}" := rfl
+theorem gen_src_stable_reserve : src_stable_reserve =
+    "{if(min_capacity>string.capacity()){string.reserve(min_capacity);}}" := rfl
+theorem gen_src_string_move_assign : src_string_move_assign =
+    "{if(get_allocator()==other.get_allocator()){swap(other);}else{*this=other;}return*this;}" := rfl
+theorem gen_src_string_construct_with_meta : src_string_construct_with_meta =
+    "{allocator.construct(ptr);stable_reserve(*ptr,meta.capacity);}" := rfl
+
+/-! ### A. representation invariant -/
+
+/-- `rvec_inv`: after any operation sequence on a freshly constructed vector,
+`size ≤ constructed ≤ capacity = buffer length`, every cell below `constructed` holds a live
+object and every cell from `constructed` on is raw storage. -/
+theorem rvec_inv (c : Cfg) (ops : List Op) :
+    let t := runOps (RVec.step c) RVec.fresh ops
+    t.size ≤ t.cons ∧ t.cons ≤ t.cap ∧ t.slots.length = t.cap ∧
+      (∀ i, i < t.cons → ∃ v, t.slots[i]? = some (Slot.live v)) ∧
+      (∀ i, t.cons ≤ i → i < t.cap → t.slots[i]? = some Slot.raw) := by
+  have r := run_spec c ops inv_fresh rep_fresh
+  exact ⟨r.inv.size_le, r.inv.cons_le, r.inv.len, r.inv.live, r.inv.raw⟩
+
+/-- the invariant is inductive: every single operation preserves it from *any* state that has it -/
+theorem rvec_inv_step (c : Cfg) (s : RVec) (o : Op) (h : Inv s) : Inv (s.step c o) := by
+  -- any state with the invariant represents some list: read the cells below `size`
+  have hx : Rep s ((List.range s.size).map (fun k => match s.slots[k]? with | some (Slot.live v) => v | _ => 0)) := by
+    refine ⟨by simp, ?_⟩
+    intro k hk
+    obtain ⟨v, hv⟩ := h.live k (by have := h.size_le; omega)
+    simp [hk, hv]
+  exact (step_spec c h hx o).inv
+
+/-! ### A. refinement of `std::vector` -/
+
+/-- `rvec_refines_list`: the observable contents (`abs`: the first `size` cells read as
+elements) follow the `std::vector` semantics `listStep` for every operation, hence for every
+operation sequence, from every well-formed state — in particular no stale element kept in
+`[size, constructed)` ever resurfaces, whatever moved-from elements hold. -/
+theorem rvec_refines_list (c : Cfg) (s : RVec) (xs : List Val) (ops : List Op)
+    (h : Inv s) (hx : s.abs = xs.map some) :
+    (runOps (RVec.step c) s ops).abs = (runOps listStep xs ops).map some := by
+  have r := run_spec c ops h ((rep_iff_abs h xs).mpr hx)
+  exact (rep_iff_abs r.inv _).mp r.rep
+
+/-- … in particular from a freshly constructed vector against a freshly constructed `std::vector` -/
+theorem rvec_refines_list_fresh (c : Cfg) (ops : List Op) :
+    (runOps (RVec.step c) RVec.fresh ops).abs = (runOps listStep [] ops).map some :=
+  rvec_refines_list c RVec.fresh [] ops inv_fresh (by simp [RVec.abs, RVec.fresh])
+
+/-- one operation at a time (the statement of DESIGN §6: `abs (op s) = listOp (abs s)`) -/
+theorem rvec_refines_list_step (c : Cfg) (s : RVec) (xs : List Val) (o : Op)
+    (h : Inv s) (hx : s.abs = xs.map some) :
+    (s.step c o).abs = (listStep xs o).map some :=
+  rvec_refines_list c s xs [o] h hx
+
+/-! ### A. element lifetimes -/
+
+/-- `rvec_lifetime`: over any operation sequence no tagged primitive ever meets a cell in the
+wrong state (`bad = 0`: every `assignOver`/`reconstruct`/move-source/`destroy` hits a live cell,
+every `constructIn` a raw one), no live object is left in a buffer given up by `reserve`
+(`leaked = 0`), constructions minus destructions equal the constructed cells; and destroying the
+vector afterwards destroys each constructed element exactly once. -/
+theorem rvec_lifetime (c : Cfg) (ops : List Op) :
+    let t := runOps (RVec.step c) RVec.fresh ops
+    t.g.bad = 0 ∧ t.g.leaked = 0 ∧ t.g.ctor = t.g.dtor + t.cons ∧
+      t.destruct.g.bad = 0 ∧ t.destruct.g.leaked = 0 ∧ t.destruct.g.ctor = t.destruct.g.dtor := by
+  have r := run_spec c ops inv_fresh rep_fresh
+  have g := r.g.ginv ginv_fresh
+  have d := destruct_spec r.inv g
+  exact ⟨g.bad, g.leaked, g.bal, d.1, d.2.1, d.2.2.1⟩
+
+/-! ### A. clear -/
+
+/-- `rvec_clear_keeps_capacity`: logical clear changes nothing but `size`: capacity, the
+constructed elements and their storage stay, nothing is allocated, destroyed or constructed. -/
+theorem rvec_clear_keeps_capacity (s : RVec) :
+    s.clear.cap = s.cap ∧ s.clear.cons = s.cons ∧ s.clear.slots = s.slots ∧ s.clear.g = s.g ∧ s.clear.size = 0 :=
+  ⟨rfl, rfl, rfl, rfl, rfl⟩
+
+/-- no operation ever shrinks the capacity or the number of constructed elements -/
+theorem rvec_capacity_monotone (c : Cfg) (s : RVec) (ops : List Op) (h : Inv s) :
+    s.cap ≤ (runOps (RVec.step c) s ops).cap ∧ s.cons ≤ (runOps (RVec.step c) s ops).cons := by
+  have hx : Rep s ((List.range s.size).map (fun k => match s.slots[k]? with | some (Slot.live v) => v | _ => 0)) := by
+    refine ⟨by simp, ?_⟩
+    intro k hk
+    obtain ⟨v, hv⟩ := h.live k (by have := h.size_le; omega)
+    simp [hk, hv]
+  have r := run_spec c ops h hx
+  exact ⟨r.cap_le, r.cons_le⟩
+
+/-- `rvec_clear_eq_fresh`: a cleared vector is observably a freshly constructed one — it is
+empty, and whatever is done to it next yields exactly the contents the same operations yield
+on a fresh vector. -/
+theorem rvec_clear_eq_fresh (c : Cfg) (s : RVec) (h : Inv s) :
+    s.clear.abs = RVec.fresh.abs ∧
+      ∀ ops, (runOps (RVec.step c) s.clear ops).abs = (runOps (RVec.step c) RVec.fresh ops).abs := by
+  have hc := clear_spec h
+  refine ⟨by simp [RVec.abs, RVec.clear, RVec.fresh], ?_⟩
+  intro ops
+  rw [rvec_refines_list c s.clear [] ops hc.inv ((rep_iff_abs hc.inv []).mp hc.rep), rvec_refines_list_fresh]
+
+/-! ### B. reuse without allocation -/
+
+/-- `rvec_reuse_no_alloc`: if every size a workload reaches (and every explicit `reserve`
+request in it) stays within the capacity the vector already has, running it allocates
+nothing: the allocation counters and the capacity are unchanged. -/
+theorem rvec_reuse_no_alloc (c : Cfg) (s : RVec) (xs : List Val) (ops : List Op)
+    (h : Inv s) (hx : s.abs = xs.map some) (hf : Fits s.cap xs ops) :
+    (runOps (RVec.step c) s ops).g.allocs = s.g.allocs ∧
+      (runOps (RVec.step c) s ops).g.allocElems = s.g.allocElems ∧
+      (runOps (RVec.step c) s ops).cap = s.cap := by
+  have := fits_noalloc c ops h ((rep_iff_abs h xs).mpr hx) hf
+  exact ⟨this.2.1, this.2.2, this.1⟩
+
+/-- the usual shape of reuse: clear, then a workload that fits -/
+theorem rvec_reuse_after_clear (c : Cfg) (s : RVec) (ops : List Op) (h : Inv s) (hf : Fits s.cap [] ops) :
+    (runOps (RVec.step c) s.clear ops).g.allocs = s.g.allocs ∧ (runOps (RVec.step c) s.clear ops).cap = s.cap := by
+  have hc := clear_spec h
+  have := fits_noalloc c ops hc.inv hc.rep (by simpa [RVec.clear] using hf)
+  exact ⟨this.2.1, this.1⟩
+
+/-! ### non-vacuity -/
+
+/-- an element type with destructive moves (sources are left holding 999) and swap-like self move -/
+def exCfg : Cfg :=
+  { mvC := fun _ => 999, mvA := fun _ _ => 999, mvSelf := id, mvX := fun _ => 999, rebuild := false, rebuildMove := false }
+
+/-- a reachable state with stale constructed elements behind `size` (`size = 2 < constructed = 5
+< capacity = 8`), reached through growth, a shifting insert and a shifting erase -/
+example :
+    let t := runOps (RVec.step exCfg) RVec.fresh
+      [.pushBack 1, .pushBack 2, .pushBack 3, .pushBack 4, .pushBack 5, .insertRange 1 [7, 8], .erase 0 3, .clear,
+       .pushBack 6, .insertN 0 1 9]
+    (t.size, t.cons, t.cap, t.abs, t.g.bad, t.g.allocs) = (2, 7, 8, [some 9, some 6], 0, 2) := by decide
+
+/-- … the hypotheses of `rvec_reuse_no_alloc` are satisfiable by a non-trivial workload -/
+example : Fits 8 [] [.pushBack 1, .insertN 0 3 2, .resize 7 5, .reserve 8, .erase 1 4, .assignN 8 1] := by
+  simp [Fits, listStep, listApply, Op.pre, Op.request]
 
 end Babylon.Properties.C12
